@@ -261,6 +261,26 @@ fn step(st: &mut St, t: &[&str]) -> String {
                 _ => { let x = st.net[i].clone(); st.net.push(x); finish(st, vec![]) }
             }
         }
+        // a HEARTBEAT that carries the matched writer's GUID but was never sent by it (any first / last / count / flags)
+        ["forgehb", first, last, count, fin, lv] => {
+            let (Ok(first), Ok(last), Ok(count)) = (first.parse::<i64>(), last.parse::<i64>(), count.parse::<i32>()) else { return "bad-op".into() };
+            let fin = match *fin { "F" => true, "f" => false, _ => return "bad-op".into() };
+            let lv = match *lv { "L" => true, "l" => false, _ => return "bad-op".into() };
+            if st.r.is_none() { return "bad-op".into(); }
+            let mut b: Vec<u8> = vec![b'R', b'T', b'P', b'S', 2, 4, 1, 20];
+            b.extend_from_slice(&W_PREFIX);
+            b.extend_from_slice(&[0x07, 0x01 | if fin { 0x02 } else { 0 } | if lv { 0x04 } else { 0 }, 28, 0]);
+            b.extend_from_slice(&[0, 0, 2, 0x07, 0, 0, 1, 0x02]);
+            for sn in [first, last] {
+                b.extend_from_slice(&((sn >> 32) as i32).to_le_bytes());
+                b.extend_from_slice(&(sn as u32).to_le_bytes());
+            }
+            b.extend_from_slice(&count.to_le_bytes());
+            let cap = Cap::new();
+            reader_receive(st.r.as_mut().unwrap(), &b, &cap);
+            let e = cap.take().into_iter().map(|b| (false, b)).collect();
+            finish(st, e)
+        }
         ["flush"] => {
             if st.w.is_none() { return "bad-op".into(); }
             let mut all = vec![];
